@@ -144,11 +144,14 @@ def write_case_file(name, mod, coq_cases):
 _RES = re.compile(r"=\s*\(\s*\[(.*?)\]\s*,\s*\[(.*?)\]\s*\)\s*:\s*list N \* list N", re.S)
 
 
+CURRENT_TIER = ["quick"]
+
+
 def eval_case_file(path):
     """returns (model_fail_indices, spec_fail_indices) or raises"""
     rel = os.path.relpath(path, COQ)
     r = subprocess.run("ulimit -s unlimited 2>/dev/null; exec coqc -Q . Curtsies %s" % rel, shell=True,
-                       cwd=COQ, capture_output=True, text=True, timeout=3000)
+                       cwd=COQ, capture_output=True, text=True, timeout=CASE_TIMEOUT[CURRENT_TIER[0]])
     if r.returncode != 0:
         raise RuntimeError("coqc failed on %s: %s" % (rel, (r.stdout + r.stderr)[-2000:]))
     m = _RES.search(r.stdout)
@@ -164,19 +167,35 @@ def evaluate(pid, mod, items, tag):
         return [], []
     shards = []
     shard = getattr(mod, "SHARD", SHARD)
-    for k in range(0, len(items), shard):
-        chunk = items[k:k + shard]
-        name = "%s_%s_%04d" % (pid.lower(), tag, k // shard)
-        p = write_case_file(name, mod, [mod.to_coq(i, o) for i, o in chunk])
-        shards.append((k, p))
     mf, sf = [], []
+    # an output far larger than anything the unchanged tree produces (a value that grows from call to call, say) is
+    # not given to Coq: it counts as a disagreement with the model straight away
+    lits = []
+    for idx, (i, o) in enumerate(items):
+        lit = mod.to_coq(i, o)
+        if len(lit) > MAX_CASE_LITERAL:
+            mf.append(idx)
+            OVERSIZE.append(idx)
+            lit = None
+        lits.append(lit)
+    for k in range(0, len(items), shard):
+        chunk = [(k + j, l) for j, l in enumerate(lits[k:k + shard]) if l is not None]
+        if not chunk:
+            continue
+        name = "%s_%s_%04d" % (pid.lower(), tag, k // shard)
+        p = write_case_file(name, mod, [l for _, l in chunk])
+        shards.append(([ix for ix, _ in chunk], p))
     with concurrent.futures.ThreadPoolExecutor(NPROC) as ex:
-        futs = {ex.submit(eval_case_file, p): (k, p) for k, p in shards}
+        futs = {ex.submit(eval_case_file, p): (ixs, p) for ixs, p in shards}
         for fut in concurrent.futures.as_completed(futs):
-            k, p = futs[fut]
-            a, b = fut.result()
-            mf += [k + i for i in a]
-            sf += [k + i for i in b]
+            ixs, p = futs[fut]
+            try:
+                a, b = fut.result()
+            except Exception as e:  # a shard Coq could not evaluate (time, memory): reported, the others still count
+                EVAL_ERRORS.append("%s: %s" % (os.path.basename(p), str(e)[-300:]))
+                continue
+            mf += [ixs[i] for i in a]
+            sf += [ixs[i] for i in b]
     for _, p in shards:
         for ext in (".v", ".vo", ".vok", ".vos", ".glob"):
             q = p[:-2] + ext
@@ -188,11 +207,58 @@ def evaluate(pid, mod, items, tag):
     return sorted(mf), sorted(sf)
 
 
-def run_impl(mod, inputs):
+MAX_CASE_LITERAL = 400000     # characters of one case's Coq literal (the largest on the unchanged tree: ~60000)
+OVERSIZE = []
+EVAL_ERRORS = []
+CASE_TIMEOUT = {"quick": 400, "thorough": 2400}
+
+
+class ImplTooSlow(Exception):
+    """the implementation did not get through the inputs within the budget (a hang, or work that grows without bound)"""
+
+
+# wall-clock budget for running the implementation on one pass of inputs; the unchanged tree needs a few seconds
+# (the slowest, the pty-driven C08 / C12, 10-30 s quick and 2-4 min thorough)
+IMPL_BUDGET = {"quick": 420, "thorough": 2400, "search": 150}
+SEARCH_MAX_INPUTS = 20000
+ONE_INPUT_BUDGET = 120
+TOO_SLOW = []
+
+
+def run_impl(mod, inputs, tier="quick"):
+    """run the implementation on every input.  If one input takes longer than ONE_INPUT_BUDGET seconds or the pass
+    longer than IMPL_BUDGET, stop: the items gathered so far are still judged, and the check reports that the rest
+    could not be run (TOO_SLOW), never a silent pass"""
+    import signal
     items = []
-    for inp in inputs:
-        out = mod.run(inp)
-        items.append((inp, out))
+    t0 = time.time()
+
+    def on_alarm(signum, frame):
+        raise ImplTooSlow()
+    use_alarm = hasattr(signal, "SIGALRM") and getattr(mod, "RUN_ALARM", True)
+    old = signal.signal(signal.SIGALRM, on_alarm) if use_alarm else None
+    try:
+        for k, inp in enumerate(inputs):
+            left = IMPL_BUDGET[tier] - (time.time() - t0)
+            if left <= 0:
+                TOO_SLOW.append("implementation needed more than %d s for %d inputs: stopped after %d" % (
+                    IMPL_BUDGET[tier], len(inputs), k))
+                break
+            if use_alarm:
+                signal.alarm(int(min(ONE_INPUT_BUDGET, left)) + 1)
+            try:
+                out = mod.run(inp)
+            except ImplTooSlow:
+                TOO_SLOW.append("input %d of %d did not finish within %d s: %s" % (
+                    k, len(inputs), ONE_INPUT_BUDGET, json.dumps(mod.to_json_input(inp), default=str)[:300]))
+                break
+            finally:
+                if use_alarm:
+                    signal.alarm(0)
+            items.append((inp, out))
+    finally:
+        if use_alarm:
+            signal.signal(signal.SIGALRM, old)
     return items
 
 
@@ -286,6 +352,7 @@ def run_check(pid, mod, tier, seed, t0):
     os.makedirs(os.path.dirname(evidence_path), exist_ok=True)
     violations = []  # (kind, replay path, suffix)
     notes = []
+    CURRENT_TIER[0] = tier
 
     # 1. translators
     tie_ok, tie_msgs = regenerate(getattr(mod, "GENERATORS", ()))
@@ -397,17 +464,17 @@ def run_check(pid, mod, tier, seed, t0):
             passes.append(("gen", gen_inputs))
             exhaustive = bool(getattr(mod, "EXHAUSTIVE", {}).get(tier, False))
             for tag, inputs in passes:
-                items = run_impl(mod, inputs)
+                items = run_impl(mod, inputs, tier)
                 account(items)
                 mf, sf = evaluate(pid, mod, items, tag)
                 classify(items, mf, sf)
-                if getattr(mod, "RERUN", True):
+                if getattr(mod, "RERUN", True) and not TOO_SLOW:
                     # every input once more, after all the others have run in this process: an answer that
                     # differs from the first one means the implementation keeps state across calls (a cache, a
                     # module-level table); the second answer is then judged like any other
                     again = []
-                    for inp, out in items:
-                        out2 = mod.run(inp)
+                    second = run_impl(mod, [inp for inp, _ in items], tier)
+                    for (inp, out), (_, out2) in zip(items, second):
                         if json.dumps(mod.to_json_output(out2), sort_keys=True, default=str) != \
                            json.dumps(mod.to_json_output(out), sort_keys=True, default=str):
                             again.append((inp, out2))
@@ -443,8 +510,8 @@ def run_check(pid, mod, tier, seed, t0):
             if (broken or model_fail_items) and not spec_fail_items and tier == "quick":
                 log("[search] proof or correspondence broken; searching for a concrete failing input")
                 rng2 = random.Random(seed + 1)
-                inputs = list(mod.generate(rng2, "thorough"))
-                items = run_impl(mod, inputs)
+                inputs = list(mod.generate(rng2, "thorough"))[:SEARCH_MAX_INPUTS]
+                items = run_impl(mod, inputs, "search")
                 account(items)
                 mf, sf = evaluate(pid, mod, items, "search")
                 classify(items, mf, sf)
@@ -455,6 +522,12 @@ def run_check(pid, mod, tier, seed, t0):
             log(traceback.format_exc()[-3000:])
     else:
         corr_error = "correspondence module %s did not build" % mod.CORR_VO
+    if (TOO_SLOW or EVAL_ERRORS) and not corr_error:
+        corr_error = "; ".join(TOO_SLOW + ["Coq could not evaluate %d case files (%s)" % (len(EVAL_ERRORS), EVAL_ERRORS[0])]
+                               if EVAL_ERRORS else TOO_SLOW)
+        log("[correspondence] " + corr_error)
+    if OVERSIZE:
+        notes.append("%d outputs were too large to be given to Coq and count as disagreements" % len(OVERSIZE))
 
     # 4. verdict
     for fam, (inp, out) in sorted(known_seen.items()):
